@@ -96,8 +96,61 @@ def opt_str(s):
     return [0] if s is None else [1] + enc_str(cps(s))
 
 
+class Point(__import__('collections').namedtuple('Point', 'x y')):
+    """a module-level namedtuple: pickled by reference to props.C15.Point"""
+    __slots__ = ()
+
+
+class Colour(__import__('enum').Enum):
+    RED = 1
+    GREEN = 2
+
+
+def mat(v):
+    """materialise a case value: JSON cannot carry tuples, sets, bytes or instances of library / user classes,
+    so cases describe them as {'$py': kind, 'a': args}"""
+    if isinstance(v, list):
+        return [mat(x) for x in v]
+    if isinstance(v, dict):
+        if '$py' in v:
+            import datetime
+            import decimal
+            import fractions
+            import uuid
+            k, a = v['$py'], v.get('a')
+            if k == 'tuple':
+                return tuple(mat(x) for x in a)
+            if k == 'frozenset':
+                return frozenset(mat(x) for x in a)
+            if k == 'set':
+                return set(mat(x) for x in a)
+            if k == 'bytes':
+                return bytes(a)
+            if k == 'complex':
+                return complex(a[0], a[1])
+            if k == 'Fraction':
+                return fractions.Fraction(a[0], a[1])
+            if k == 'Decimal':
+                return decimal.Decimal(a)
+            if k == 'UUID':
+                return uuid.UUID(int=a)
+            if k == 'datetime':
+                return datetime.datetime(*a)
+            if k == 'date':
+                return datetime.date(*a)
+            if k == 'timedelta':
+                return datetime.timedelta(seconds=a)
+            if k == 'Point':
+                return Point(mat(a[0]), mat(a[1]))
+            if k == 'Colour':
+                return Colour(a)
+            raise ValueError(v)
+        return {kk: mat(x) for kk, x in v.items()}
+    return v
+
+
 def pk_of(c):
-    return list(pickle.dumps((c['name'], c['value']), -1))
+    return list(pickle.dumps((c['name'], mat(c['value'])), -1))
 
 
 def as_obj(c):
@@ -165,6 +218,9 @@ class PickleProxy:
     def dumps(self, *a, **kw):
         return pickle.dumps(*a, **kw)
 
+    def __getattr__(self, name):                 # everything else (Unpickler, UnpicklingError, ...) is the real module's
+        return getattr(pickle, name)
+
     def loads(self, b, *a, **kw):
         self.calls.append(list(bytes(b)))
         return pickle.loads(b, *a, **kw)
@@ -219,6 +275,9 @@ def corpus():
         scn([('a', 'b', '')]),                               # empty secret = no secret
         scn([('a', obj, S)]),
         scn([('a', 'text', S)]), scn([('a', '', S)]), scn([('a', None, S)]), scn([('a', 0, S)]),
+        # any picklable value: containers JSON cannot carry, library classes, a namedtuple, an enum member (nested too)
+        *[scn([('a', v, S)]) for v in PY_VALUES],
+        scn([('a', {'who': PY_VALUES[11], 'n': [PY_VALUES[5], PY_VALUES[12]]}, S)]),
         scn([('a', obj, '\u043a\u043b\u044e\u0447')]),
         scn([('a', obj, '\ud800')]),                         # secret cannot be encoded
         scn([('a', obj, S)], rsecret='other'),               # other secret
@@ -335,8 +394,20 @@ def gen_mojibake(rng):
     return s if any(ord(ch) > 127 for ch in s) else s + '\xc2\xa3'
 
 
+PY_VALUES = [
+    {'$py': 'tuple', 'a': [1, 'x', None]}, {'$py': 'frozenset', 'a': [1, 2]}, {'$py': 'set', 'a': ['a']},
+    {'$py': 'bytes', 'a': [0, 255, 10]}, {'$py': 'complex', 'a': [1.5, -2.0]},
+    {'$py': 'Fraction', 'a': [1, 3]}, {'$py': 'Decimal', 'a': '1.10'}, {'$py': 'UUID', 'a': 2 ** 100 + 7},
+    {'$py': 'datetime', 'a': [2030, 1, 2, 3, 4, 5]}, {'$py': 'date', 'a': [1999, 12, 31]}, {'$py': 'timedelta', 'a': 90},
+    {'$py': 'Point', 'a': [1, 'y']}, {'$py': 'Colour', 'a': 2},
+    {'$py': 'Point', 'a': [{'$py': 'Fraction', 'a': [2, 7]}, [{'$py': 'Colour', 'a': 1}]]},
+]
+
+
 def gen_obj(rng, depth=0):
     r = rng.random()
+    if r < 0.12:                                # values JSON cannot carry: containers, library and user classes
+        return rng.choice(PY_VALUES)
     if depth > 2 or r < 0.35:
         return rng.choice([None, True, False, 0, 1, -7, 2 ** 40, '', 'x', 'a?b!c', '\u044f', 'bob', 1.5])
     if r < 0.6:
@@ -353,7 +424,7 @@ SUBST = [0, 33, 34, 59, 61, 63, 65, 255]          # the 8 substitution values of
 def mutate_msg(rng, c):
     """a message for the re-signing attacker: the genuine base64 text with junk the lenient decoder skips,
     or cut at the end (binascii.Error / truncated pickle)"""
-    m = list(base64.b64encode(pickle.dumps((c[0], c[1]), -1)))
+    m = list(base64.b64encode(pickle.dumps((c[0], mat(c[1])), -1)))
     r = rng.random()
     if r < 0.5:
         for _ in range(rng.randrange(1, 4)):
@@ -585,13 +656,13 @@ def read_once(rq, proxy, case, name, secret):
         elif not proxy.calls and not secret:
             g = ['str', cps(got)] if isinstance(got, str) else ['other', repr(got)[:60]]
         elif not proxy.calls and isinstance(got, str) and not any(
-                as_obj(c) and jeq(got, c['value']) for c in case['cookies']):
+                as_obj(c) and jeq(got, mat(c['value'])) for c in case['cookies']):
             g = ['str', cps(got)]
         else:
             # an unpickled object; when nothing was unpickled for THIS read (a memo) it is identified by value
             g = ['other', repr(got)[:60]]
             for i, c in enumerate(case['cookies']):
-                if as_obj(c) and (not proxy.calls or proxy.calls[-1] == pk_of(c)) and jeq(got, c['value']):
+                if as_obj(c) and (not proxy.calls or proxy.calls[-1] == pk_of(c)) and jeq(got, mat(c['value'])):
                     g = ['val', i]
                     break
     if len(proxy.calls) > 1:
@@ -749,7 +820,7 @@ def run_resp(case):
                     codes.append(7)
                     continue
                 elif o[0] == 'set':
-                    resp[o[1]].set_cookie(o[2], o[3], secret=o[4])
+                    resp[o[1]].set_cookie(o[2], mat(o[3]), secret=o[4])
                 else:
                     resp[o[1]].delete_cookie(o[2])
                 codes.append(0)
@@ -811,7 +882,7 @@ def run_scn(case):
         resp = Response()
         for i, c in enumerate(case['cookies']):
             try:
-                resp.set_cookie(c['name'], c['value'], secret=as_secret(case, c['secret']))
+                resp.set_cookie(c['name'], mat(c['value']), secret=as_secret(case, c['secret']))
             except UnicodeEncodeError:
                 return dict(st='set_error', i=i, e=4)
             except TypeError:
@@ -971,7 +1042,7 @@ def decode(out, case):
 
 def authentic(c):
     """reference signed-cookie text for cookie c, from the stdlib only"""
-    msg = base64.b64encode(pickle.dumps((c['name'], c['value']), -1))
+    msg = base64.b64encode(pickle.dumps((c['name'], mat(c['value'])), -1))
     sig = base64.b64encode(hmac.new(c['secret'].encode('utf8'), msg, digestmod=hashlib.md5).digest())
     return cps((b'!' + sig + b'?' + msg).decode('ascii'))
 
